@@ -33,9 +33,9 @@ static int parseConvertElement(MPT_INTERFACE(convertable) *conv, MPT_TYPE(type) 
 	const char *txt;
 	int len;
 	
-	/* indicate consumed value */
+	/* no element left */
 	if (!(txt = it->val)) {
-		return 0;
+		return MPT_ERROR(MissingData);
 	}
 	/* reset value end indicator */
 	if (it->restore) {
@@ -89,8 +89,9 @@ static int parseConvertElement(MPT_INTERFACE(convertable) *conv, MPT_TYPE(type) 
 		len = txt - it->val;
 	}
 	/* convert to target type */
-	else if ((len = mpt_convert_string(it->val, type, dest)) < 0) {
-		return len;
+	else if ((len = mpt_convert_string(it->val, type, dest)) <= 0) {
+		/* nothing was stored for white space only */
+		return len ? len : MPT_ERROR(MissingData);
 	}
 	/* terminate consumed substring */
 	it->restore = it->val + len;
@@ -105,6 +106,10 @@ static int parseConvertElement(MPT_INTERFACE(convertable) *conv, MPT_TYPE(type) 
 static const MPT_STRUCT(value) *parseValue(MPT_INTERFACE(iterator) *ptr)
 {
 	MPT_STRUCT(parseIterator) *d = MPT_baseaddr(parseIterator, ptr, _it);
+	/* no value after last element */
+	if (!d->val) {
+		return 0;
+	}
 	return &d->elem.val;
 }
 static int parseAdvance(MPT_INTERFACE(iterator) *ptr)
